@@ -6,9 +6,9 @@ Invariants of the application-session product machine, part 8: properties of eve
 namespace NasdaqModel.App
 open NasdaqModel
 
-/-- the observables a step appends without further ado: everything except an `await app.close()` that ended with something else
-    than a normal return or the cancellation of a user task (the two places that emit "`close()` of a message callback ended with
-    `CancelledError`" are treated separately) -/
+/-- the observables a step can append: everything except an `await app.close()` that ended with something else than a normal
+    return or the cancellation of a user task.  (Before the repair of C05-app-close-from-message-callback two transitions emitted
+    "`close()` of a message callback ended with `CancelledError`"; they are gone: `Witness/C05AppOld.lean`.) -/
 def plainObs : AObs → Bool
   | .closeRet _ .ok => true
   | .closeRet (.user _) .cancelled => true
@@ -38,8 +38,21 @@ theorem innerStep_O {s : St} (i : InvO P s) (e : Sess.Ev) : InvO P (innerStep a 
 variable (hpl : ∀ o, plainObs o = true → P o)
 include hpl
 
+theorem d2Return_O {s : St} (i : InvO P s) : InvO P (d2Return s) := by
+  unfold d2Return
+  split
+  · split
+    · rename_i v _
+      split
+      · exact InvO.of_trace2 (trace2_finish2 _ _) ((i.emit2 (hpl _ rfl)).emit2 (hpl _ rfl))
+      · exact InvO.of_trace2 (s := (s.emit2 (.closeRet (.handler v) .ok)).emit2 (.msgExit v)) rfl
+          ((i.emit2 (hpl _ rfl)).emit2 (hpl _ rfl))
+    · exact InvO.of_trace2 (trace2_finish2 _ _) ((i.emit2 (hpl _ rfl)).emit2 (hpl _ rfl))
+    · exact i
+  · exact i
+
 theorem finishClose_O {s : St} (i : InvO P s) (t : Sess.Tid) : InvO P (finishClose a s t) :=
-  innerStep_O (s := { s with cpc := .finished }) (InvO.of_trace2 (s := s) rfl i) _
+  d2Return_O hpl (innerStep_O (s := { s with cpc := .finished }) (InvO.of_trace2 (s := s) rfl i) _)
 
 theorem endCb_O {s : St} (i : InvO P s) (t : Sess.Tid) : InvO P (endCb a s t) :=
   finishClose_O hpl (InvO.of_trace2 (trace2_setEvent _) (i.emit2 (hpl _ rfl))) t
@@ -133,6 +146,14 @@ theorem startClose_O {s : St} (i : InvO P s) (t : ATid) (p : AProg) : InvO P (st
     innerStep_O (s := { s with evt := some false }) (InvO.of_trace2 (s := s) rfl i) _
   exact InvO.of_trace2 (s := innerStep a { s with evt := some false } .callInitiateClose) rfl h1
 
+theorem closeOnD2_O {s : St} (i : InvO P s) (p : AProg) : InvO P (closeOnD2 a s p) := by
+  unfold closeOnD2
+  have i1 : InvO P ((({ s with evt := some false } : St).setA .D2 .inSoup).setP .D2 p) := InvO.of_trace2 (s := s) rfl i
+  simp only
+  split
+  · exact d2Return_O hpl i1
+  · exact passInner_O hpl i1 _
+
 theorem dispHandle2_O {s : St} (i : InvO P s) (v : Nat) : InvO P (dispHandle2 a s v) := by
   unfold dispHandle2
   split
@@ -142,7 +163,7 @@ theorem dispHandle2_O {s : St} (i : InvO P s) (v : Nat) : InvO P (dispHandle2 a 
   · split
     · exact InvO.of_trace2 (s := (s.emit2 (.closeRet (.handler v) .ok)).emit2 (.msgExit v)) rfl
         ((i.emit2 (hpl _ rfl)).emit2 (hpl _ rfl))
-    · exact startClose_O hpl i _ _
+    · exact closeOnD2_O hpl i _
   · exact InvO.of_trace2 (s := s) rfl i
   · exact InvO.of_trace2 (s := s) rfl i
 
@@ -152,7 +173,7 @@ theorem handlerDone_O {s : St} (i : InvO P s) (t : ATid) (v : Nat) : InvO P (han
   · split
     · exact InvO.of_trace2 (s := (s.emit2 (.closeRet (.handler v) .ok)).emit2 (.msgExit v)) rfl
         ((i.emit2 (hpl _ rfl)).emit2 (hpl _ rfl))
-    · exact startClose_O hpl i _ _
+    · exact closeOnD2_O hpl i _
   · exact InvO.of_trace2 (s := s.emit2 (.msgExit v)) rfl (i.emit2 (hpl _ rfl))
 
 theorem stepDisp2_O {s : St} (i : InvO P s) : InvO P (stepDisp2 a s) := by
@@ -169,40 +190,28 @@ theorem stepDisp2_O {s : St} (i : InvO P s) : InvO P (stepDisp2 a s) := by
 
 end
 
-/-- **Every step keeps a property of the application-level observables**, provided it holds of the plain ones and — where the
-    state says so — of a message callback's `close()` ending with `CancelledError`: the callback awaits `close()` in its body
-    (it is inside `handlerClose`), or it is inside the `close()` of its clean-up (possible only with the old order). -/
+/-- **Every step keeps a property of the application-level observables**, provided it holds of the plain ones. -/
 theorem step_InvO {a : ACfg} {P : AObs → Prop} (hpl : ∀ o, plainObs o = true → P o)
-    (hA : ∀ v, (a.msgBeh v = .close ∨ ∃ k, a.msgBeh v = .awaitClose k) → P (.closeRet (.handler v) .cancelled))
-    (hB : a.closedFirst = false → ∀ v, P (.closeRet (.handler v) .cancelled))
-    {s : St} (inv : Inv a s) (i : InvO P s) (ev : Ev) : InvO P (step a s ev) := by
+    {s : St} (i : InvO P s) (ev : Ev) : InvO P (step a s ev) := by
   cases ev with
-  | inner e => exact stepInner_O hpl i e
+  | inner e =>
+    simp only [step]
+    split
+    · exact i
+    · exact stepInner_O hpl i e
   | run t =>
     simp only [step]
     split
     · unfold stepRun2
       have i0 : InvO P { s with imm2 := false } := InvO.of_trace2 (s := s) rfl i
-      have is0 : InvS a { s with imm2 := false } := InvS.of_core (s := s) rfl inv.ss
-      generalize ({ s with imm2 := false } : St) = s0 at i0 is0
+      generalize ({ s with imm2 := false } : St) = s0 at i0
       simp only
       split
-      · rename_i hst
-        have hal : alive2 (s0.astatus t) = true := by rw [hst]; rfl
-        have hty := is0.ty t hal
-        split
+      · split
         · exact InvO.of_trace2 (trace2_finish2 _ _) (i0.emit2 (hpl _ rfl))
-        · rename_i v hp
-          rw [hp] at hty
-          obtain rfl := allowed2_D2 hty (Or.inr (Or.inr (Or.inl ⟨v, rfl⟩)))
-          exact InvO.of_trace2 (trace2_finish2 _ _) ((i0.emit2 (hA v (is0.hc v hp hal))).emit2 (hpl _ rfl))
         · split
           · exact InvO.of_trace2 (trace2_finish2 _ _) ((i0.emit2 (hpl _ rfl)).emit2 (hpl _ rfl))
-          · exact startClose_O hpl i0 _ _
-        · rename_i v hp
-          rw [hp] at hty
-          obtain rfl := allowed2_D2 hty (Or.inr (Or.inr (Or.inr (Or.inr ⟨v, rfl⟩))))
-          exact InvO.of_trace2 (trace2_finish2 _ _) ((i0.emit2 (hB (is0.cc v hp hal) v)).emit2 (hpl _ rfl))
+          · exact closeOnD2_O hpl i0 _
         · rename_i u hp
           have i1 : InvO P { s0 with vres2 := none, rcv2Busy := false, q2 := s0.vres2.toList ++ s0.q2 } := InvO.of_trace2 (s := s0) rfl i0
           split
@@ -217,14 +226,10 @@ theorem step_InvO {a : ACfg} {P : AObs → Prop} (hpl : ∀ o, plainObs o = true
         · split
           · exact handlerDone_O hpl i0 _ _
           · exact InvO.of_trace2 (s := s0) rfl i0
-        · rename_i v _
-          exact InvO.of_trace2 (s := (s0.emit2 (.closeRet (.handler v) .ok)).emit2 (.msgExit v)) rfl
-            ((i0.emit2 (hpl _ rfl)).emit2 (hpl _ rfl))
         · split
           · rename_i v _ _
             exact InvO.of_trace2 (s := s0.emit2 (.msgExit v)) rfl (i0.emit2 (hpl _ rfl))
           · exact InvO.of_trace2 (s := s0) rfl i0
-        · exact InvO.of_trace2 (trace2_finish2 _ _) ((i0.emit2 (hpl _ rfl)).emit2 (hpl _ rfl))
         · split
           · exact InvO.of_trace2 (s := s0) rfl i0
           · split
@@ -244,7 +249,9 @@ theorem step_InvO {a : ACfg} {P : AObs → Prop} (hpl : ∀ o, plainObs o = true
         · exact InvO.of_trace2 (trace2_finish2 _ _) (i0.emit2 (hpl _ rfl))
         · exact i0
       · exact i0
-    · exact i
+    · split
+      · exact stepInner_O hpl (s := { s with imm2 := false }) (InvO.of_trace2 (s := s) rfl i) _
+      · exact i
   | appClose u =>
     simp only [step]
     split
@@ -271,13 +278,11 @@ theorem step_InvO {a : ACfg} {P : AObs → Prop} (hpl : ∀ o, plainObs o = true
   | appCancel u => exact InvO.of_trace2 (by simp [step]) i
 
 theorem runEvs_InvO {a : ACfg} {P : AObs → Prop} (hpl : ∀ o, plainObs o = true → P o)
-    (hA : ∀ v, (a.msgBeh v = .close ∨ ∃ k, a.msgBeh v = .awaitClose k) → P (.closeRet (.handler v) .cancelled))
-    (hB : a.closedFirst = false → ∀ v, P (.closeRet (.handler v) .cancelled))
     (evs : List Ev) : InvO P (runEvs a {} evs) := by
-  have : ∀ (s : St), Inv a s → InvO P s → InvO P (runEvs a s evs) ∧ Inv a (runEvs a s evs) := by
+  have : ∀ (s : St), InvO P s → InvO P (runEvs a s evs) := by
     induction evs with
-    | nil => intro s i o; exact ⟨o, i⟩
-    | cons ev evs ih => intro s i o; exact ih _ (step_Inv i ev) (step_InvO hpl hA hB i o ev)
-  exact (this _ (Inv.init a) (by intro o h; simp [St.trace2] at h)).1
+    | nil => intro s o; exact o
+    | cons ev evs ih => intro s o; exact ih _ (step_InvO hpl o ev)
+  exact this _ (by intro o h; simp [St.trace2] at h)
 
 end NasdaqModel.App
